@@ -315,7 +315,16 @@ def run(P, C, tier):
                  "recomputed the next recomputed day then gets no history hash, so the chained history depends on which days are recomputed together" % (role, bad or "none"))
         # add_log on the recompute arm
         al = cp.calls_to(r"DailyLogsUpdate::add_log$")
-        C.ob("R5", "recomputed-entries-reported", len(al) == 1, cp.loc(), "every recomputed entry is added to the update (feeds C18)", nontrivial=False)
+        # every iteration that recomputes a day (it queries the day's signatures) reports the day: on every path from that query
+        # to the next iteration or the normal return an add_log call is passed
+        qs = [qb for qb, qt in cp.calls_to(r"Statement.*::query$") if len(strip_refs(cp.call_args(qb)[1])[4] if strip_refs(cp.call_args(qb)[1])[0] == "aggr" else []) == 4]
+        reported = bool(al) and bool(qs)
+        for qb in qs:
+            hdr_ = rights.enclosing_loop_header(cp, qb)
+            r_ = cp.reach_after(qb, avoid_blocks={x for x, _ in al})
+            if (hdr_ is not None and hdr_ in r_) or (r_ & set(mir.return_assignments(cp)["Ok"])):
+                reported = False
+        C.ob("R5", "recomputed-entries-reported", reported, cp.loc(), "every recomputed entry is added to the update on every path of its iteration (feeds C18): %d add_log site(s)" % len(al))
     except mir.MissingAnchor as e:
         C.anchor_missing("R4", "compute", e)
     # ---- R6
@@ -333,6 +342,7 @@ def run(P, C, tier):
         C.anchor_missing("R6", "set_need_update", e)
     r7_cursor_writes(P, C)
     r8_window_per_chain(P, C)
+    r9_emptied_day(P, C)
 
 
 READ_T = re.compile(r"\b(?:FROM|JOIN)\s+([A-Za-z_][A-Za-z0-9_]*)", re.I)
@@ -479,3 +489,54 @@ def r8_window_per_chain(P, C):
         C.ob("R8", "window-ordered-by-chain", re.search(r"ORDER\s+BY\s+(\w+\.)?room_id\s*,\s*(\w+\.)?entity\s*,\s*(\w+\.)?date\s*$", t.strip(), re.I) is not None, cp.loc(bi),
              "rows are delivered chain by chain in date order (ORDER BY room_id, entity, date)")
     C.floor("R8", "sub-selects and joins of the window statement", n, 3)
+
+
+def r9_emptied_day(P, C):
+    C.rule("R9", "two peers that store the same rows have identical logs: a recomputed day that no longer contains any row or deletion record leaves the log -- "
+                 "its _daily_log row is deleted on the `entry count == 0` edge, and that iteration neither writes the computed-day UPDATE nor advances the "
+                 "chain (a kept empty day `(0, NULL, NULL)` makes every later history hash of the chain NULL, while a peer that only received the later version "
+                 "has no such entry)")
+    try:
+        cp = P.body("daily_log::DailyLogsUpdate::compute")
+    except mir.MissingAnchor as e:
+        C.anchor_missing("R9", "compute", e)
+        return
+    dels = []
+    upds = []
+    for bi, callee, text, holes, term in sql.statements(cp):
+        if not text:
+            continue
+        tx = sql.norm(text)
+        if re.match(r"DELETE\s+FROM\s+_daily_log\b", tx, re.I):
+            dels.append((bi, tx))
+        if re.match(r"UPDATE\s+_daily_log\s+SET\s+entry_number", tx, re.I):
+            upds.append(bi)
+
+    def execs_of(prep):
+        out = []
+        for qb, qt in cp.calls_to(r"Statement.*::execute$"):
+            pc = mir.has_call(cp.call_args(qb, expand_vars=True)[0], r"::prepare(_cached)?$")
+            if pc is not None and pc[3] == prep:
+                out.append(qb)
+        return out
+    ok = False
+    detail = "compute never deletes a _daily_log row: a day emptied by a later version of its only row stays in the log as (0, NULL, NULL) and breaks the chain"
+    if dels:
+        addressed = all(re.search(r"room_id\s*=\s*\?", t) and re.search(r"entity\s*=\s*\?", t) and re.search(r"date\s*=\s*\?", t) for _, t in dels)
+        del_execs = [x for d, _ in dels for x in execs_of(d)]
+        upd_execs = [x for u in upds for x in execs_of(u)]
+        guarded = True
+        for dx in del_execs:
+            g = False
+            for s_, vals, term in cp.implied_guards(dx, expand_vars=True):
+                atom, truth = mir.cond_atoms(term, vals)
+                if atom[0] == "bin" and atom[1] == "Eq" and truth is True and any(strip_refs(x)[0] == "const" and strip_refs(x)[1] == 0 for x in atom[2:4]):
+                    g = True
+                if atom[0] == "bin" and atom[1] == "Ne" and truth is False and any(strip_refs(x)[0] == "const" and strip_refs(x)[1] == 0 for x in atom[2:4]):
+                    g = True
+            guarded = guarded and g
+        hdr = rights.enclosing_loop_header(cp, del_execs[0]) if del_execs else None
+        skips_update = bool(del_execs) and hdr is not None and all(not any(u in cp.reach_after(dx, avoid_blocks={hdr}) for u in upd_execs) for dx in del_execs)
+        ok = addressed and bool(del_execs) and guarded and skips_update and bool(upd_execs)
+        detail = "DELETE addressed by (room, entity, date): %s; executed only when the recomputed count is 0: %s; the iteration then skips the computed-day UPDATE: %s" % (addressed, guarded, skips_update)
+    C.ob("R9", "emptied-day-leaves-the-log", ok, cp.loc(dels[0][0]) if dels else cp.loc(), detail)
